@@ -51,7 +51,7 @@ fn build_stco_box(chunk_offsets: &[u32]) -> (r: Vec<u8>)
         payload.extend_from_slice(&offset.v_be());
     }
     proof { assert(chunk_offsets@.take(chunk_offsets@.len() as int) =~= chunk_offsets@); }
-    build_box(b"stco", &payload)
+    build_box(&[0x73u8, 0x74, 0x63, 0x6f], &payload) // R3 applied: was b"stco"
 }
 
 } // verus!
